@@ -340,3 +340,8 @@ func (m *C12Mon) After(h *Hand, pre *pokerface.GameState, op Op, err error, post
 func (m *C12Mon) End(h *Hand, s *pokerface.GameState) {
 	m.chips(h, s)
 }
+
+// a getter that rewrites the state (for example the offered actions of the seat to act)
+func (m *C11Mon) QueryChanged(h *Hand, what string) {
+	h.Fail("C11/offer-changed-by-query", "by=read-only-query", what)
+}
